@@ -48,6 +48,23 @@ def case(g, tier, ci):
     SR = g.sr([1, 7, 100, 2.4, 1e3, 1e6, 1e9, 5e10])
     ops, info = g.blueprint("b", SR=SR, nseg=(1, 5), kinds=("ramp", "sine", "gaussian", "gsc"), waits=0.2, markers=False, nmax=60)
     ops += [{"op": "el.new", "id": "e"}, {"op": "el.addBP", "id": "e", "ch": 1, "bp": "b"}, {"op": "el.getArrays", "id": "e", "time": True}]
+    if ci % 5 == 2:
+        # two channels of equal duration whose off-grid segments round to different totals (2 x 2.4 samples = 4 points,
+        # 1 x 4.8 samples = 5 points): every shape still delivers all of its own points
+        r = g.r
+        k = r.choice([2.4, 3.4, 6.4])
+        ops += [{"op": "bp.new", "id": "p1"},
+                {"op": "bp.insert", "id": "p1", "pos": -1, "fn": "ramp", "args": [enc(0.0), enc(1.0)], "dur": enc(k / SR), "name": None},
+                {"op": "bp.insert", "id": "p1", "pos": -1, "fn": "sine", "args": [enc(SR / 8), enc(0.5), enc(0.0), enc(0.0)], "dur": enc(k / SR), "name": None},
+                {"op": "bp.setSR", "id": "p1", "SR": enc(SR)},
+                {"op": "bp.new", "id": "p2"},
+                {"op": "bp.insert", "id": "p2", "pos": -1, "fn": "ramp", "args": [enc(0.0), enc(1.0)], "dur": enc(2 * k / SR), "name": None},
+                {"op": "bp.setSR", "id": "p2", "SR": enc(SR)},
+                {"op": "el.new", "id": "e2"}, {"op": "el.addBP", "id": "e2", "ch": 1, "bp": "p1"}, {"op": "el.addBP", "id": "e2", "ch": 2, "bp": "p2"},
+                {"op": "el.validate", "id": "e2"}, {"op": "el.getArrays", "id": "e2", "time": True}]
+    if ci % 5 == 3:
+        # the channel held a raw array first: the blueprint's shapes are what is forged
+        ops = ops[:-2] + [{"op": "el.addArray", "id": "e", "ch": 1, "wfm": [q(0.25)] * 7, "SR": enc(SR), "kw": []}] + ops[-2:]
     return ops
 
 
